@@ -7,9 +7,11 @@ runs in which a signal is delivered while the same signal is still pending are o
 (counted, not judged): by POSIX they are the runs with one signal less.
 """
 import json
+import os
 import re
 
 from vlib import sched
+from vlib.common import REPO
 
 SIGINT, SIGSTOP, SIGTSTP = 2, 19, 20
 SGN = {SIGINT: "int", SIGTSTP: "tstp"}
@@ -139,7 +141,9 @@ def project_sig(res, variant, wform="blind"):
     stage = {}            # worker -> conn (connected) updT (in _update_connect_state) updL (updated) body res
     polled = {}
     zlist, zcanc, fwds = [], None, []
-    for kind, s, ev in ordered(res):
+    evs = ordered(res)
+    deferred = False
+    for pos, (kind, s, ev) in enumerate(evs):
         th = ev[0]
         if th.startswith("W") and len(ev) > 1 and ev[1] in ("poll", "read"):
             polled[th] = True
@@ -165,6 +169,12 @@ def project_sig(res, variant, wform="blind"):
             L.append("st %s %s %s %s %s" % (s["tc"], keep_names(s["R"]), keep_names(s["P"]), keep_names(s["X"]),
                                             s.get("ts", "-")))
         L.append("ev " + " ".join(fe))
+        if fe == ["D", "cancelS"] and cancel_deferred(evs, pos):
+            # pthread_cancel is deferred: the signals thread is in the middle of a handler and runs on until it comes back
+            # to sigwait.  The model lets the cancellation take effect at once (stated assumption), so the rest of
+            # this run is outside its domain: the trace is validated up to here; the spec monitors judge all of it.
+            deferred = True
+            break
         if fe[0].startswith("W"):
             st = stage.get(fe[0])
             if fe[1] == "connectEnd" and fe[2] == "1":
@@ -187,6 +197,9 @@ def project_sig(res, variant, wform="blind"):
                 L.append("obs canc %s" % ("?" if zcanc is None else zcanc))
             elif fe[1] == "fwd":
                 fwds.append(fe[2])
+    if deferred:
+        L.append("end other")
+        return L
     L.append("obs fwds " + (",".join(fwds) or "-"))
     status = m.get("status", "crash")
     if status == "deadlock" and res.get("last_S"):
@@ -198,6 +211,46 @@ def project_sig(res, variant, wform="blind"):
     else:
         L.append("end " + status)
     return L
+
+
+def cancel_deferred(evs, pos):
+    """evs[pos] is `D cancel Z`: is the signals thread still there afterwards (not at a cancellation point)?"""
+    for kind, s, ev in evs[pos + 1:]:
+        if kind == "E" and s is not None:
+            return any("Z" in (s.get(k) or "").split(",") for k in ("R", "X", "B"))
+        if kind == "I" and ev[0] == "Z":
+            return True
+    return False
+
+
+def late_interrupt_crash(res):
+    """Is this crash the signals thread walking t[] after dsh() has freed it?  (pthread_cancel(thread_sig) is deferred;
+    a handler that is running when dsh() cancels the thread goes on, and _fwd_signal / _list_slowthreads /
+    _cancel_pending_threads dereference the NULL or freed t.)  Plain build: the harness names the faulting thread and
+    the trace shows the cancel; sanitizer build: the report names a line of dsh.c inside one of these functions."""
+    m = res.get("M") or {}
+    if m.get("status") == "segv":
+        fault = [ev for _, ev in res["inline"] if len(ev) >= 2 and ev[1] == "fault"]
+        cancelled = any(ev[:3] == ["D", "cancel", "Z"] for _, ev in res["steps"])
+        return bool(fault) and fault[-1][0] == "Z" and cancelled
+    txt = res.get("crash") or ""
+    if "null pointer of type 'struct thd_t'" in txt or "heap-use-after-free" in txt:
+        try:
+            src = open(os.path.join(REPO, "src", "pdsh", "dsh.c")).read().split("\n")
+        except OSError:
+            return False
+        spans = []
+        for fn in ("_fwd_signal", "_list_slowthreads", "_cancel_pending_threads"):
+            for i, l in enumerate(src):
+                if re.match(r"^%s\s*\(" % fn, l) or re.match(r"^static \w+ %s\s*\(" % fn, l):
+                    j = i
+                    while j < len(src) and src[j] != "}":
+                        j += 1
+                    spans.append((i + 1, j + 1))
+        for mm in re.finditer(r"dsh\.c:(\d+)", txt):
+            if any(a <= int(mm.group(1)) <= b for a, b in spans):
+                return True
+    return False
 
 
 def accept_all(ctx, batches):
@@ -395,6 +448,10 @@ def offenders(res, base):
     facts = {"episodes": [], "domain": True}
     if res["crash"] is not None:
         txt = res["crash"]
+        if late_interrupt_crash(res):
+            return [("late-interrupt-crash:signals-thread-on-freed-t",
+                     "an interrupt taken by sigwait just before dsh() finishes: pthread_cancel(thread_sig) is deferred, the "
+                     "handler runs on after dsh() has freed t[] and dereferences it (SIGSEGV / sanitizer report)")], facts
         k = txt.find("ERROR: ")
         return [("crash", "harness process aborted (sanitizer / assertion / signal / timeout): " +
                  (txt[k:k + 160] if k >= 0 else txt[:160]).replace("\n", " "))], facts
